@@ -373,7 +373,7 @@ func init() {
 		}
 		liveDone := s.startLive(a)
 		t0 := time.Now().Unix()
-		err, panicked := runCmd(c.Execute)
+		err, panicked := s.execute(a, c, nil)
 		t1 := time.Now().Unix()
 		recs, nows := parseOutput(readOut())
 		liveAt := ""
@@ -419,7 +419,7 @@ func init() {
 		}
 		liveDone := s.startLive(a)
 		t0 := time.Now().Unix()
-		err, panicked := runCmd(c.Execute)
+		err, panicked := s.execute(a, c, nil)
 		t1 := time.Now().Unix()
 		recs, nows := parseOutput(readOut())
 		liveAt := ""
@@ -499,7 +499,7 @@ func init() {
 			}
 		}
 		t0 := time.Now().Unix()
-		err, panicked := runCmdThen(c.Execute, probe)
+		err, panicked := s.execute(a, c, probe)
 		t1 := time.Now().Unix()
 		release()
 		recs, nows := parseOutput(readOut())
@@ -529,7 +529,7 @@ func init() {
 		items := itemsOracle(s, a["base"], a["item"], a["src"])
 		liveDone := s.startLive(a)
 		t0 := time.Now().Unix()
-		err, panicked := runCmd(c.Execute)
+		err, panicked := s.execute(a, c, nil)
 		t1 := time.Now().Unix()
 		recs, nows := parseOutput(readOut())
 		liveAt := ""
@@ -556,7 +556,7 @@ func init() {
 		}
 		items := itemsOracle(s, a["base"], a["item"], a["src"])
 		t0 := time.Now().Unix()
-		err, panicked := runCmd(c.Execute)
+		err, panicked := s.execute(a, c, nil)
 		t1 := time.Now().Unix()
 		recs, nows := parseOutput(readOut())
 		s.echo(fmt.Sprintf("%s nows=%s items=%s clock=%d,%d", strings.Join(tk, " "), csvOrDash(nows), items, t0, t1))
@@ -578,7 +578,7 @@ func init() {
 				ArchiveID: int(a.num("archive", -1)), ShowHeader: a.num("header", 1) == 1, TextOut: to,
 			}
 			t0 := time.Now().Unix()
-			err, panicked := runCmd(c.Execute)
+			err, panicked := s.execute(a, c, nil)
 			t1 := time.Now().Unix()
 			if t0 != t1 && try < 5 {
 				continue
@@ -603,7 +603,7 @@ func init() {
 				ArchiveID: int(a.num("archive", -1)), ShowHeader: a.num("header", 1) == 1, SortsByTime: a.num("sort", 0) == 1, TextOut: to,
 			}
 			t0 := time.Now().Unix()
-			err, panicked := runCmd(c.Execute)
+			err, panicked := s.execute(a, c, nil)
 			t1 := time.Now().Unix()
 			if t0 != t1 && try < 5 {
 				continue
@@ -673,7 +673,7 @@ func init() {
 				ArchiveInfoList: layoutFromCSV(a["layout"]), RandMax: int(a.num("max", 10)), Fill: a.num("fill", 1) == 1, TextOut: to,
 			}
 			t0 := time.Now().Unix()
-			err, panicked := runCmd(c.Execute)
+			err, panicked := s.execute(a, c, nil)
 			t1 := time.Now().Unix()
 			if t0 != t1 && try < 5 && !existed && err == nil {
 				os.Remove(dest)
